@@ -633,12 +633,49 @@ func generateTopology(r *rand.Rand) *Scenario {
 		if chance(0.3) {
 			job.Min = 1 + r.Intn(size) // elastic
 		}
+		// sub-group level constraints: two pod sets (optionally under a common parent sub-group), each
+		// with its own required level - usually finer than the job's own level, or the job itself has none
+		subOf := func(k int) int { return 0 }
+		if nl >= 1 && job.Topo != "missing-topology" && chance(0.4) {
+			size = pick(2, 3, 4)
+			szA := 1 + r.Intn(size-1)
+			finer := func(base int) int {
+				if base >= nl {
+					return nl
+				}
+				return base + 1 + r.Intn(nl-base)
+			}
+			base := job.TopoReq
+			if job.Topo == "" || chance(0.3) {
+				job.Topo, job.TopoReq, base = "", 0, 0
+			}
+			ta, tb := finer(base), finer(base)
+			if chance(0.25) {
+				tb = 0
+			}
+			job.Subs = []Sub{{Name: "sa", Min: szA, TopoReq: ta}, {Name: "sb", Min: size - szA, TopoReq: tb}}
+			if chance(0.3) {
+				// a parent sub-group carrying a constraint for both pod sets
+				pt := 0
+				if base < nl && chance(0.7) {
+					pt = base + 1
+				}
+				job.Subs = []Sub{{Name: "sa", Min: szA, TopoReq: ta, Parent: "grp"}, {Name: "sb", Min: size - szA, TopoReq: tb, Parent: "grp"}, {Name: "grp", Min: 0, TopoReq: pt}}
+			}
+			job.Min = size
+			subOf = func(k int) int {
+				if k < szA {
+					return 1
+				}
+				return 2
+			}
+		}
 		sc.Jobs = append(sc.Jobs, job)
 		// an unconstrained job may already run (anywhere it fits); constrained ones start pending, or
 		// with ONE pod running (pinning the domain) when elastic with min 1
 		for k := 0; k < size; k++ {
-			p := Pod{Name: fmt.Sprintf("j%d-p%d", j+1, k+1), Job: j + 1, Cpu: 500, Mem: 500, Gpu: 1, Phase: "P"}
-			runIt := (job.Topo == "" && chance(0.6)) || (job.Topo == "topo1" && job.Min == 1 && k == 0 && chance(0.5))
+			p := Pod{Name: fmt.Sprintf("j%d-p%d", j+1, k+1), Job: j + 1, Cpu: 500, Mem: 500, Gpu: 1, Phase: "P", Sub: subOf(k)}
+			runIt := (job.Topo == "" && len(job.Subs) == 0 && chance(0.6)) || (job.Topo == "topo1" && job.Min == 1 && k == 0 && chance(0.5))
 			if runIt {
 				for _, ni := range r.Perm(nn) {
 					if used[ni] < sc.Nodes[ni].Gpus {
